@@ -26,14 +26,14 @@ type Store struct {
 	natBindings map[string]*NATBinding // ID -> NATBinding
 
 	// Indexes for fast lookup
-	subscriberByMAC map[string]string // MAC -> subscriber ID
-	subscriberByNTE map[string]string // NTE ID -> subscriber ID
-	leaseByIP       map[string]string // IP -> lease ID
-	leaseByMAC      map[string]string // MAC -> lease ID
-	sessionByMAC    map[string]string // MAC -> session ID
-	sessionByIP     map[string]string // IP -> session ID
-	natByPrivate    map[string]string // "ip:port:proto" -> binding ID
-	natByPublic     map[string]string // "ip:port:proto" -> binding ID
+	subscriberByMAC map[string]string   // MAC -> subscriber ID
+	subscriberByNTE map[string]string   // NTE ID -> subscriber ID
+	leaseByIP       map[string]string   // IP -> lease ID
+	leaseByMAC      map[string][]string // MAC -> lease IDs, oldest first (a client may hold several leases)
+	sessionByMAC    map[string][]string // MAC -> session IDs, oldest first (e.g. IPoE + PPPoE of one CPE)
+	sessionByIP     map[string]string   // IP -> session ID
+	natByPrivate    map[string]string   // "ip:port:proto" -> binding ID
+	natByPublic     map[string]string   // "ip:port:proto" -> binding ID
 
 	// Statistics
 	stats StoreStats
@@ -86,8 +86,8 @@ func NewStore(config Config, logger *zap.Logger) *Store {
 		subscriberByMAC: make(map[string]string),
 		subscriberByNTE: make(map[string]string),
 		leaseByIP:       make(map[string]string),
-		leaseByMAC:      make(map[string]string),
-		sessionByMAC:    make(map[string]string),
+		leaseByMAC:      make(map[string][]string),
+		sessionByMAC:    make(map[string][]string),
 		sessionByIP:     make(map[string]string),
 		natByPrivate:    make(map[string]string),
 		natByPublic:     make(map[string]string),
@@ -441,6 +441,88 @@ func (s *Store) DeletePool(id string) error {
 	return nil
 }
 
+// --- Secondary index helpers ---
+
+// indexAdd appends id to a multi-valued index entry (no duplicates).
+func indexAdd(idx map[string][]string, key, id string) {
+	for _, v := range idx[key] {
+		if v == id {
+			return
+		}
+	}
+	idx[key] = append(idx[key], id)
+}
+
+// indexRemove removes id from a multi-valued index entry.
+func indexRemove(idx map[string][]string, key, id string) {
+	ids := idx[key]
+	for i, v := range ids {
+		if v == id {
+			ids = append(ids[:i], ids[i+1:]...)
+			break
+		}
+	}
+	if len(ids) == 0 {
+		delete(idx, key)
+	} else {
+		idx[key] = ids
+	}
+}
+
+// indexNewest returns the most recently added id for key.
+func indexNewest(idx map[string][]string, key string) (string, bool) {
+	ids := idx[key]
+	if len(ids) == 0 {
+		return "", false
+	}
+	return ids[len(ids)-1], true
+}
+
+// indexLease / unindexLease maintain leaseByIP and leaseByMAC for one lease.
+// An entry is only removed if it still points at this lease. Caller holds s.mu.
+func (s *Store) indexLease(lease *Lease) {
+	if lease.IPv4 != nil {
+		s.leaseByIP[lease.IPv4.String()] = lease.ID
+	}
+	if lease.IPv6 != nil {
+		s.leaseByIP[lease.IPv6.String()] = lease.ID
+	}
+	if lease.MAC != nil {
+		indexAdd(s.leaseByMAC, lease.MAC.String(), lease.ID)
+	}
+}
+
+func (s *Store) unindexLease(lease *Lease) {
+	if lease.IPv4 != nil && s.leaseByIP[lease.IPv4.String()] == lease.ID {
+		delete(s.leaseByIP, lease.IPv4.String())
+	}
+	if lease.IPv6 != nil && s.leaseByIP[lease.IPv6.String()] == lease.ID {
+		delete(s.leaseByIP, lease.IPv6.String())
+	}
+	if lease.MAC != nil {
+		indexRemove(s.leaseByMAC, lease.MAC.String(), lease.ID)
+	}
+}
+
+// indexSession / unindexSession maintain sessionByMAC and sessionByIP for one session. Caller holds s.mu.
+func (s *Store) indexSession(session *Session) {
+	if session.MAC != nil {
+		indexAdd(s.sessionByMAC, session.MAC.String(), session.ID)
+	}
+	if session.IPv4 != nil {
+		s.sessionByIP[session.IPv4.String()] = session.ID
+	}
+}
+
+func (s *Store) unindexSession(session *Session) {
+	if session.MAC != nil {
+		indexRemove(s.sessionByMAC, session.MAC.String(), session.ID)
+	}
+	if session.IPv4 != nil && s.sessionByIP[session.IPv4.String()] == session.ID {
+		delete(s.sessionByIP, session.IPv4.String())
+	}
+}
+
 // --- Lease Operations ---
 
 // CreateLease creates a new lease.
@@ -471,7 +553,7 @@ func (s *Store) CreateLease(lease *Lease) error {
 
 	// Index by MAC
 	if lease.MAC != nil {
-		s.leaseByMAC[lease.MAC.String()] = lease.ID
+		indexAdd(s.leaseByMAC, lease.MAC.String(), lease.ID)
 	}
 
 	// Update pool allocation count
@@ -517,7 +599,7 @@ func (s *Store) GetLeaseByMAC(mac net.HardwareAddr) (*Lease, error) {
 	s.mu.RLock()
 	defer s.mu.RUnlock()
 
-	id, exists := s.leaseByMAC[mac.String()]
+	id, exists := indexNewest(s.leaseByMAC, mac.String())
 	if !exists {
 		return nil, fmt.Errorf("lease not found for MAC: %s", mac)
 	}
@@ -532,9 +614,16 @@ func (s *Store) UpdateLease(lease *Lease) error {
 	s.mu.Lock()
 	defer s.mu.Unlock()
 
-	if _, exists := s.leases[lease.ID]; !exists {
+	existing, exists := s.leases[lease.ID]
+	if !exists {
 		return fmt.Errorf("lease not found: %s", lease.ID)
 	}
+
+	// Keep the secondary indexes in step with changed MAC / addresses
+	if existing != lease {
+		s.unindexLease(existing)
+	}
+	s.indexLease(lease)
 
 	lease.UpdatedAt = time.Now()
 	lease.LastActivity = time.Now()
@@ -575,15 +664,7 @@ func (s *Store) DeleteLease(id string) error {
 	}
 
 	// Remove from indexes
-	if lease.IPv4 != nil {
-		delete(s.leaseByIP, lease.IPv4.String())
-	}
-	if lease.IPv6 != nil {
-		delete(s.leaseByIP, lease.IPv6.String())
-	}
-	if lease.MAC != nil {
-		delete(s.leaseByMAC, lease.MAC.String())
-	}
+	s.unindexLease(lease)
 
 	// Update pool allocation count
 	if pool, exists := s.pools[lease.PoolID]; exists {
@@ -630,7 +711,7 @@ func (s *Store) CreateSession(session *Session) error {
 
 	// Index by MAC
 	if session.MAC != nil {
-		s.sessionByMAC[session.MAC.String()] = session.ID
+		indexAdd(s.sessionByMAC, session.MAC.String(), session.ID)
 	}
 
 	// Index by IP
@@ -661,7 +742,7 @@ func (s *Store) GetSessionByMAC(mac net.HardwareAddr) (*Session, error) {
 	s.mu.RLock()
 	defer s.mu.RUnlock()
 
-	id, exists := s.sessionByMAC[mac.String()]
+	id, exists := indexNewest(s.sessionByMAC, mac.String())
 	if !exists {
 		return nil, fmt.Errorf("session not found for MAC: %s", mac)
 	}
@@ -691,9 +772,17 @@ func (s *Store) UpdateSession(session *Session) error {
 	s.mu.Lock()
 	defer s.mu.Unlock()
 
-	if _, exists := s.sessions[session.ID]; !exists {
+	existing, exists := s.sessions[session.ID]
+	if !exists {
 		return fmt.Errorf("session not found: %s", session.ID)
 	}
+
+	// Keep the secondary indexes in step with a changed MAC / address
+	// (a session usually learns its address after it was created)
+	if existing != session {
+		s.unindexSession(existing)
+	}
+	s.indexSession(session)
 
 	session.UpdatedAt = time.Now()
 	s.sessions[session.ID] = session
@@ -730,12 +819,7 @@ func (s *Store) DeleteSession(id string) error {
 	}
 
 	// Remove from indexes
-	if session.MAC != nil {
-		delete(s.sessionByMAC, session.MAC.String())
-	}
-	if session.IPv4 != nil {
-		delete(s.sessionByIP, session.IPv4.String())
-	}
+	s.unindexSession(session)
 
 	delete(s.sessions, id)
 	s.stats.Deletes++
@@ -889,15 +973,7 @@ func (s *Store) cleanupExpiredLeases() {
 		lease.State = LeaseStateExpired
 
 		// Remove from indexes
-		if lease.IPv4 != nil {
-			delete(s.leaseByIP, lease.IPv4.String())
-		}
-		if lease.IPv6 != nil {
-			delete(s.leaseByIP, lease.IPv6.String())
-		}
-		if lease.MAC != nil {
-			delete(s.leaseByMAC, lease.MAC.String())
-		}
+		s.unindexLease(lease)
 
 		// Update pool allocation count
 		if pool, exists := s.pools[lease.PoolID]; exists {
@@ -957,12 +1033,7 @@ func (s *Store) cleanupIdleSessions() {
 		session := s.sessions[id]
 
 		// Remove from indexes
-		if session.MAC != nil {
-			delete(s.sessionByMAC, session.MAC.String())
-		}
-		if session.IPv4 != nil {
-			delete(s.sessionByIP, session.IPv4.String())
-		}
+		s.unindexSession(session)
 
 		delete(s.sessions, id)
 		s.stats.Deletes++
